@@ -2,7 +2,7 @@
    requested attributes and character set.  Statements only; proofs are in
    P_*.v.  Tie lemmas (Tie_Output, Tie_Charset) are required so that the model's
    constants are re-checked against the headers whenever this file is built. *)
-From TP Require Import Base Elem Term VT Oracle P_Sync P_Step P_Bytes P_Run Tie_Output Tie_Charset.
+From TP Require Import Base Elem Term VT Oracle P_Sync P_Step P_Bytes P_Run P_Link Tie_Output Tie_Charset.
 Local Open Scope N_scope.
 
 (* For every behaviour, every reference terminal configuration compatible with
@@ -38,6 +38,19 @@ Theorem C01_step :
     modes_of v' = op_modes beh v o.
 Proof. exact sync_step. Qed.
 Print Assumptions C01_step.
+
+(* the oracle's clause 101 (a byte outside a complete, known control function, or
+   the stream ending inside one) never fires on the model's bytes *)
+Theorem C01_oracle_clause_101 :
+  forall cfg beh, (b_unicode_all beh = true -> unicode_all cfg = true) ->
+  forall v0 h, vt0_ok v0 -> wf_hist beh init_tstate h ->
+    let v := snd (hrun cfg beh init_tstate v0 h) in
+    (malformed v || unknown v || negb (match lex v with Ground => true | _ => false end)) = false.
+Proof.
+  intros cfg beh Huni v0 h H0 Hwf v. apply (sync_clause_101 beh (fst (hrun cfg beh init_tstate v0 h))).
+  exact (proj1 (sync_hrun cfg beh Huni h init_tstate v0 (sync_init beh v0 H0) Hwf)).
+Qed.
+Print Assumptions C01_oracle_clause_101.
 
 (* non-vacuity: a concrete history that satisfies the hypotheses and exercises
    charset, UTF-8, colours, blink, erase and a size change *)
